@@ -150,7 +150,9 @@ def newton_raphson_solve_s(P1, S, FFp, s1=0.0,
         # while allowing those which have not yet converged to progress,
         # over "time," the iterations of Newton-Raphson will speed up, in terms
         # of wall clock time.
-        rays_which_converged = (delta < eps)
+        # eps is relative to the size of s once |s| > 1: an absolute 100*eps is
+        # below one ulp of s when |s| > ~128, and such rays could never converge
+        rays_which_converged = (delta < eps * np.maximum(1, abs(sjp1)))
         sj[mask] = sjp1
         insert_mask = mask[rays_which_converged]
         if insert_mask.size != 0:
